@@ -94,14 +94,14 @@ def relation(results, data_rows_total):
     return True, ""
 
 
-def make_srows(keys, nrows, unique, widths=None):
+def make_srows(keys, nrows, unique, widths=None, with_limit=False):
     n = len(keys)
     widths = widths or [n] * nrows
     names = rf.field_names(keys)
     checks = ("c,uniq,IsUnique,%s" % names[0],) if unique else ()
     text = rf.cid_text(keys, checks=checks)
 
-    def go(header, fault, cells):
+    def go(header, fault, cells, lim=None):
         rows = []
         k = 0
         for r in range(nrows):
@@ -113,7 +113,7 @@ def make_srows(keys, nrows, unique, widths=None):
             from cutplace import validio
             cid = rf.build_cid(text)
             rf.set_header(cid, header)
-            readers = dict((m, validio.Reader(cid, rf.CountingRows(rows, fault), on_error=m)) for m in MODES)
+            readers = dict((m, validio.Reader(cid, rf.CountingRows(rows, fault), on_error=m, validate_until=lim)) for m in MODES)
             for m in MODES:
                 results[m] = read_mode(cid, None, m, reader=readers[m])
         total = max(0, nrows - header) if fault < 0 else None
@@ -132,9 +132,13 @@ def make_srows(keys, nrows, unique, widths=None):
         return ok, why, cls
 
     def mk(mode):
-        def h(header: int, fault: int, c0: str, c1: str, c2: str, c3: str, c4: str, c5: str):
+        def h(header: int, fault: int, c0: str, c1: str, c2: str, c3: str, c4: str, c5: str, has_limit: bool, limit: int):
             assume(0 <= header <= 2)
             assume(-1 <= fault <= nrows)
+            if with_limit:
+                assume(0 <= limit <= nrows + 1)
+            else:
+                assume(not has_limit)
             cells = [c0, c1, c2, c3, c4, c5]
             for i in range(sum(widths)):
                 assume(len(cells[i]) <= 2)
@@ -145,21 +149,21 @@ def make_srows(keys, nrows, unique, widths=None):
                         k = cells[pos]
                         assume(len(k) == 1 and ord(k) in (97, 98, 99))  # keys a/b valid, c invalid (alphabet bounded)
                     pos += widths[r]
-            ok, why, cls = go(header, fault, cells)
+            ok, why, cls = go(header, fault, cells, limit if has_limit else None)
             return ok, cls
 
         return h
 
     def replay(args):
         cells = [args["c%d" % i] for i in range(6)]
-        ok, why, cls = go(args["header"], args["fault"], cells)
+        ok, why, cls = go(args["header"], args["fault"], cells, args["limit"] if args.get("has_limit") else None)
         rows = []
         k = 0
         for r in range(nrows):
             rows.append([cells[k + j] for j in range(widths[r])])
             k += widths[r]
-        return (not ok), "fields %r unique=%s header %d fault_after %d rows %r: %s" % (
-            keys, unique, args["header"], args["fault"], rows, why), "modes-relation"
+        return (not ok), "fields %r unique=%s header %d limit %r fault_after %d rows %r: %s" % (
+            keys, unique, args["header"], args["limit"] if args.get("has_limit") else None, args["fault"], rows, why), "modes-relation"
 
     return mk, replay
 
@@ -413,10 +417,12 @@ def build(tier, seed):
         shapes += [(("ch", "t01"), 3, True), (("t12",), 5, False), (("t12", "ch", "t1"), 2, False)]
     shapes = [s + (None,) for s in shapes] + [(("ch", "t01"), 2, True, [1, 2]), (("t12", "t01"), 2, False, [3, 2]),
                                               (("ch", "t01"), 3, True, [2, 3, 1])]
-    for keys, nrows, unique, widths in shapes:
-        mk, rp = make_srows(keys, nrows, unique, widths)
-        queries.append(Query("C06/srows/%s/rows=%d%s%s" % ("+".join(keys), nrows, "/unique" if unique else "",
-                                                          "/widths=%s" % ",".join(map(str, widths)) if widths else ""),
+    shapes = [s + (False,) for s in shapes] + [(("t12",), 3, False, None, True), (("ch", "t01"), 2, True, None, True)]
+    for keys, nrows, unique, widths, with_limit in shapes:
+        mk, rp = make_srows(keys, nrows, unique, widths, with_limit)
+        queries.append(Query("C06/srows/%s/rows=%d%s%s%s" % ("+".join(keys), nrows, "/unique" if unique else "",
+                                                            "/widths=%s" % ",".join(map(str, widths)) if widths else "",
+                                                            "/limit" if with_limit else ""),
                              "modes", mk,
                              "fields %r, %d rows, all cells symbolic (len<=2; unique keys from {a,b,c}), header 0..2, "
                              "container fault after -1..%d rows, all three modes per path" % (keys, nrows, nrows),
